@@ -6,6 +6,7 @@ import (
 	"bufio"
 	"bytes"
 	"fmt"
+	"reflect"
 )
 
 // Hook for the /verif harness (build tag `verif` only, property C04): the
@@ -56,6 +57,8 @@ func VerifLegacyResponses() []struct {
 // response type (readFrom, or the reflective read for the types Conn passes to
 // readResponse) and encodes the decoded value again with the type's writeTo.
 // It returns the re-encoded bytes and the number of bytes the reader left.
+// The harness model does not distinguish a nil from an empty []byte: nil
+// []byte fields of the decoded value are made empty before re-encoding.
 func VerifLegacyRewrite(name string, version int16, body []byte) (out []byte, remain int, err error) {
 	r := bufio.NewReader(bytes.NewReader(body))
 	v := apiVersion(version)
@@ -121,7 +124,33 @@ func VerifLegacyRewrite(name string, version int16, body []byte) (out []byte, re
 	if err != nil {
 		return nil, remain, err
 	}
+	p := reflect.New(reflect.TypeOf(w))
+	p.Elem().Set(reflect.ValueOf(w))
+	verifNonNilBytes(p.Elem())
 	buf := &bytes.Buffer{}
-	w.writeTo(&writeBuffer{w: buf})
+	p.Elem().Interface().(verifLegacyWriter).writeTo(&writeBuffer{w: buf})
 	return buf.Bytes(), remain, nil
+}
+
+var verifByteSlice = reflect.TypeOf([]byte(nil))
+
+func verifNonNilBytes(v reflect.Value) {
+	switch v.Kind() {
+	case reflect.Struct:
+		for i := 0; i < v.NumField(); i++ {
+			if v.Type().Field(i).PkgPath == "" { // exported: settable
+				verifNonNilBytes(v.Field(i))
+			}
+		}
+	case reflect.Slice:
+		if v.Type() == verifByteSlice {
+			if v.IsNil() && v.CanSet() {
+				v.Set(reflect.ValueOf([]byte{}))
+			}
+			return
+		}
+		for i := 0; i < v.Len(); i++ {
+			verifNonNilBytes(v.Index(i))
+		}
+	}
 }
